@@ -259,7 +259,7 @@ class ExplicitStateGraph:
         while frontier:
             n = frontier.pop()
             ancestors[n.state] = n
-            for parent_state in n.parent_states:
+            for parent_state in sorted(n.parent_states, key=lambda ps: self.states_to_nodes[ps].visitorder):
                 if parent_state in ancestors:
                     continue
                 parent_node = self.states_to_nodes[parent_state]
@@ -269,7 +269,7 @@ class ExplicitStateGraph:
 
     def dynamic_programming(self, nodes):
         """Perform dynamic programming updates over a set of nodes"""
-        dp_action_order = list(set.union(*[set(n.action_order) for n in nodes]))
+        dp_action_order = list(dict.fromkeys(a for n in nodes for a in n.action_order))
         tf, rf, am = self._state_nodes_to_matrices(nodes, dp_action_order)
         pi, v, q = self._policy_iteration(tf, rf, am)
 
